@@ -282,4 +282,6 @@ func runC12(c *report.Ctx) {
 
 	// ---- restore / issue coupling ---------------------------------------------------------------------------
 	ruleGapWindowExtends(c)
+	ruleAddressRowKeyForm(c)
+	rulePersistedIndexClamped(c)
 }
